@@ -66,12 +66,15 @@ def real_thread_runs(ctx):
             prog = rng.choice([console_progress, html_progress(d + "/p.html"), null_progress, (console_progress, html_progress(d + "/q.html"))])
             out = [N[i] for i in rng.sample(list(N), min(len(N), 2))]
             buf = io.StringIO()
-            try:
-                with contextlib.redirect_stdout(buf), contextlib.redirect_stderr(buf):
-                    uberjob.run(plan, output=out, max_workers=rng.choice([1, 2, 5]), max_errors=rng.choice([0, 1, None]),
-                                scheduler=rng.choice(["default", "random"]), progress=prog)
-            except BaseException:      # noqa: BLE001
-                pass
+            opts = dict(max_workers=rng.choice([1, 2, 5]), max_errors=rng.choice([0, 1, None]), scheduler=rng.choice(["default", "random"]))
+            from harness import common
+            with contextlib.redirect_stdout(buf), contextlib.redirect_stderr(buf):
+                how, info = common.bounded(lambda: uberjob.run(plan, output=out, progress=prog, **opts), 30.0)
+            if how == "hung":
+                viol.append({"property": "C07", "what": f"uberjob.run (real threads, {opts}) did not return within 30 s; still there: {info[:4]}",
+                             "user_case": {"spec": spec, "output": None, "workers": opts["max_workers"], "max_errors": opts["max_errors"],
+                                           "scheduler": opts["scheduler"], "failing": failing}, "seed": 0})
+                break
         left = [t for t in threading.enumerate() if t not in base and t.is_alive()]
         started = sum(1 for e in rec.events if e[0] == "start")
         finished = sum(1 for e in rec.events if e[0] in ("end", "fail"))
